@@ -60,7 +60,11 @@ def cases(draw, method):
     base.pop('ops')
     base['history'] = draw(history(method))
     base['lr'] = draw(st.sampled_from([0.01, 0.05, 0.2]))
-    base['eval_first'] = draw(st.booleans())
+    # validation right after resuming (eval pass first) is the more revealing order: what only a
+    # training-mode pass refreshes stays stale
+    base['eval_first'] = draw(st.sampled_from([True, True, False]))
+    if method == 'pit':
+        base['fold_bn'] = draw(st.sampled_from([True, True, False]))
     # the observation passes run with autograd on (a training loop) or off (validation)
     base['obs_grad'] = draw(st.booleans())
     return base
